@@ -91,3 +91,6 @@ Lemma nskipn_nil_nnth {A} (l : list A) i : nskipn i l = [] -> nnth l i = None.
 Proof.
   intros H. replace i with (i + 0) by lia. rewrite <- nnth_nskipn, H. reflexivity.
 Qed.
+
+Lemma aruns_ret_inv {A} (a : A) v r : aruns (Ret a) v r -> r = ADone a v.
+Proof. intros H. inversion H; subst. reflexivity. Qed.
